@@ -310,3 +310,65 @@ Definition anon_split (pl sl nkeys mine macsz : nat) (xok kok : bool) (ct : list
           end
       end
   end.
+
+(* ------------------------------------------------------------------ *)
+(* Parameterised groups (every parameter set the API allows, not only the
+   default instances) *)
+
+(* group/p256/residue.go: residuePoint.UnmarshalBinary = SetBytes (any length)
+   followed by Valid(): 0 < v < P and v^Q = 1 (mod P), for the parameters
+   (P, Q) of the group the point belongs to (SetParams / QuadraticResidueGroup) *)
+Section Residue.
+  Context {F : Type} (O : fops F).
+  Definition residue_decode (P Q : Z) (s : list Z) : res Z :=
+    let v := be_decode s in
+    if (0 <? v) && (v <? P) && feqb O (fpow O (fofZ O v) Q) (f1 O) then Ok v else Err.
+  Definition residue_encode (n : nat) (v : Z) : list Z := be_bytes n v.
+End Residue.
+
+(* group/edwards25519vartime curve.decodePoint / solveForX for an arbitrary
+   parameter set: field prime p (p = 3 mod 4 or p = 5 mod 8), curve constants a, d,
+   encoding length n = PointLen.  [sqrtm1] is only used when p = 5 mod 8. *)
+Section EdGen.
+  Context {F : Type} (O : fops F).
+  Variables (p : Z) (a d sqrtm1 : F) (n : nat).
+  Notation "x +f y" := (fadd O x y) (at level 50, left associativity).
+  Notation "x -f y" := (fsub O x y) (at level 50, left associativity).
+  Notation "x *f y" := (fmul O x y) (at level 40, left associativity).
+
+  Definition ginv (x : F) : F := fpow O x (p - 2).
+
+  Definition gsqrt (t : F) : option F :=
+    if p mod 4 =? 3 then
+      let r := fpow O t ((p + 1) / 4) in
+      if feqb O (r *f r) t then Some r else None
+    else
+      let r := fpow O t ((p + 3) / 8) in
+      if feqb O (r *f r) t then Some r
+      else if feqb O (r *f r) (fneg O t) then Some (r *f sqrtm1)
+      else None.
+
+  Definition edg_decode (s : list Z) : res (F * F) :=
+    if negb (Nat.eqb (length s) n) then Err else         (* len(bb) != c.PointLen() *)
+    let b := rev s in
+    match byte_at b 0 with
+    | None => Panic                                       (* b[0] >> 7 *)
+    | Some b0 =>
+        let xsign := b0 / 128 in
+        let y := fofZ O (be_decode ((b0 mod 128) :: tl b)) in
+        let yy := y *f y in
+        let t1 := f1 O -f yy in
+        let t2 := a -f (d *f yy) in
+        let x2 := t1 *f ginv t2 in
+        match gsqrt x2 with
+        | None => Err
+        | Some x =>
+            let x' := if Z.eqb (ftoZ O x mod 2) xsign then x else fneg O x in
+            Ok (x', y)
+        end
+    end.
+
+  Definition edg_encode (P : F * F) : list Z :=
+    let yb := le_bytes n (ftoZ O (snd P)) in
+    firstn (n - 1) yb ++ [nth (n - 1) yb 0 + 128 * (ftoZ O (fst P) mod 2)].
+End EdGen.
